@@ -1,15 +1,14 @@
 use pvmc::ast::*;
 use pvmc::run::run_query;
-use pvmc::sched;
 fn main() {
     pvmc::run::install_quiet_panic_hook();
-    let progs = pvmc::fd::tier2(true);
-    let idx: usize = std::env::args().nth(1).and_then(|s| s.parse().ok()).unwrap_or(0);
-    let p: &Program = &progs[idx];
-    println!("{}", p);
-    for round in 0..3 {
-        let (out, trace, mm) = sched::run_with(&sched::ALL_SITES, &[], false, || run_query(4, p, 100, 1_000_000));
-        println!("round {} answers {} mismatch {:?}", round, out.answers.len(), mm);
-        println!("  {}", trace.iter().map(|t| format!("{}:{}", t.site, t.arity)).collect::<Vec<_>>().join(" "));
+    let x = T::V(0);
+    let progs = vec![
+        Program { nq: 1, body: vec![G::Dfs(vec![G::Conde(vec![vec![G::Eq(x.clone(), T::list(vec![T::I(1), T::I(2), T::I(3)]))], vec![G::Eq(x.clone(), T::I(1))]])])] },
+        Program { nq: 1, body: vec![G::Dfs(vec![G::Rel(Rel::Member, vec![x.clone(), T::list(vec![T::list(vec![T::I(1), T::I(2)]), T::I(7), T::list(vec![T::I(3)]), T::I(8)])])])] },
+    ];
+    for p in progs {
+        let out = run_query(1, &p, 10, 10000);
+        println!("{} => {:?}", p, out.answers.iter().map(|a| a.to_string()).collect::<Vec<_>>());
     }
 }
